@@ -269,6 +269,15 @@ def query(ctx, p):
             ctx.require(m.aslist() == [[d[n], len([e for e in node[n] if len(edge[e]) == 2])] for n in nodes], "multi.aslist disagrees")
             es = H.edges.size
             ctx.require(eq_seq(list(es.asdict()), edges) and es.aslist() == [len(edge[e]) for e in edges], "edge stat outputs disagree")
+            if nodes:
+                vals = [d[n] for n in nodes]
+                ctx.require(st.max() == max(vals) and st.min() == min(vals) and st.sum() == sum(vals), "max/min/sum disagree with the values")
+                ctx.require(st.argmax() is nodes[vals.index(max(vals))] and st.argmin() is nodes[vals.index(min(vals))], "argmax/argmin do not return the first id with the extreme value in view order")
+                want = [n for _, n in sorted(zip(vals, range(len(nodes))), key=lambda t: t[0])]
+                ctx.require(eq_seq(st.argsort(), [nodes[i] for i in want]), "argsort is not the stable order by value")
+                ctx.require(abs(st.mean() - sum(vals) / len(vals)) < 1e-12, "mean disagrees with the values")
+            called = H.nodes(nodes[:1])
+            ctx.require(eq_seq(list(called), nodes[:1]) and eq_seq(list(called.degree.asdict()), nodes[:1]), "view(bunch) does not restrict the view and its stats")
             sub_view = H.nodes.filterby("degree", 1, "geq")
             sd = sub_view.degree.asdict()
             ctx.require(eq_seq(list(sd), [n for n in nodes if len(node[n]) >= 1]), "stat of a filtered view does not follow that view")
